@@ -9,6 +9,11 @@
  *        fd (a pipe) and are read whenever the instance next reads input.  d* = the number of reads (ticks) after which
  *        the reply is there: 0 = before the first tick (whose setupterm awaits them), k = before the (k+1)-th tick,
  *        -1 = never.  Extra op: t = one more tickit_tick(NOHANG).
+ *   B <decscusr> <rpm12> <colon> <rgb> <fd> <op>...   CONSTRUCTION ORDERS and OUTPUT BUFFERS: the terminal comes from
+ *        tickit_term_new_for_termtype (no output, not started); extra ops: b:<len> (tickit_term_set_output_buffer), o (attach the
+ *        output: tickit_term_set_output_func, or with fd=1 tickit_term_set_output_fd on a pipe; the first attach starts the
+ *        driver, and the terminal's replies to the start-up queries are pushed right after it), F (tickit_term_flush).  NO
+ *        flush is added after any op in this layer: each observation is what has been DELIVERED to the output during the op.
  * ops: A:v V:v B:v M:v H:v K:v (setctl altscreen, cursorvis, cursorblink, mouse, cursorshape, keypad_app)
  *      g:X (getctl, X one of AVBMHK)  s:<pen>  c:<pen>  Z (pause)  R (resume)  T (teardown)  D (destroy)
  *      U only: w (the application takes its own reference on the root window: tickit_window_ref(
@@ -26,6 +31,17 @@ static void w_deliver(int tick)
 {
   for(int i = 0; i < 4; i++)
     if(w_delay[i] == tick) { if(write(w_fd, w_reply[i], strlen(w_reply[i])) < 0) {} }
+}
+
+/* layer B with an output fd: the read end of the pipe, drained into the capture buffer after every op */
+static int b_rfd = -1;
+static void b_drain(void)
+{
+  if(b_rfd == -1) return;
+  char buf[4096];
+  ssize_t n;
+  while((n = read(b_rfd, buf, sizeof buf)) > 0)
+    xt_output(NULL, buf, (size_t)n, NULL);
 }
 
 static TickitTermCtl ctl_of(char c)
@@ -57,6 +73,10 @@ int main(void)
         .termtype = "xterm", .open = TICKIT_OPEN_FDS, .input_fd = fds[0], .output_fd = -1,
         .output_func = xt_output, .output_func_user = NULL,
       });
+    }
+    else if(layer == 'B') {
+      xt_reset();
+      tt = tickit_term_new_for_termtype("xterm");
     }
     else
       tt = xt_build();
@@ -93,7 +113,21 @@ int main(void)
       printf(" S:"); xt_puthex();
       first = 8;
     }
+    else if(layer == 'B') {
+      if(vh_ntok < 6) { printf(" ERR case\n"); tickit_term_unref(tt); continue; }
+      /* separator and RGB up front (they are capabilities, not modes) */
+      xt_push(tt, vh_int(3) ? "\eP1$r38:5:255m\e\\" : "\eP1$r38;5;255m\e\\");
+      tickit_term_setctl_int(tt, tickit_termctl_lookup("xterm.cap_rgb8"), vh_int(4));
+      if(vh_int(5)) {
+        if(pipe(fds) != 0) { printf(" ERR pipe\n"); tickit_term_unref(tt); continue; }
+        fcntl(fds[0], F_SETFL, fcntl(fds[0], F_GETFL) | O_NONBLOCK);
+        b_rfd = fds[0];
+      }
+      first = 6;
+    }
     else { printf(" ERR layer\n"); tickit_term_unref(tt); continue; }
+    bool autoflush = layer != 'B';
+    bool b_attached = false;
 
     bool destroyed = false;
     TickitWindow *held_win = NULL;
@@ -105,7 +139,8 @@ int main(void)
       xt_reset();
       if(strchr("AVBMHK", kind) && nf >= 2) {
         int ret = tickit_term_setctl_int(tt, ctl_of(kind), atoi(f[1]));
-        tickit_term_flush(tt);
+        if(autoflush) tickit_term_flush(tt);
+        b_drain();
         printf(" %d:", ret ? 1 : 0); xt_puthex();
       }
       else if(kind == 'g' && nf >= 2) {
@@ -117,15 +152,34 @@ int main(void)
         TickitPen *pen = xt_parse_pen(f[1]);
         if(kind == 'c') tickit_term_chpen(tt, pen); else tickit_term_setpen(tt, pen);
         tickit_pen_unref(pen);
-        tickit_term_flush(tt);
+        if(autoflush) tickit_term_flush(tt);
+        b_drain();
         putchar(' '); xt_puthex();
       }
-      else if(kind == 'Z') { tickit_term_pause(tt); tickit_term_flush(tt); putchar(' '); xt_puthex(); }
-      else if(kind == 'R') { tickit_term_resume(tt); tickit_term_flush(tt); putchar(' '); xt_puthex(); }
-      else if(kind == 'T') { tickit_term_teardown(tt); putchar(' '); xt_puthex(); }
-      else if(kind == 'D' && (layer == 'T' || t)) {
+      else if(kind == 'Z') { tickit_term_pause(tt); if(autoflush) tickit_term_flush(tt); b_drain(); putchar(' '); xt_puthex(); }
+      else if(kind == 'R') { tickit_term_resume(tt); if(autoflush) tickit_term_flush(tt); b_drain(); putchar(' '); xt_puthex(); }
+      else if(kind == 'T') { tickit_term_teardown(tt); b_drain(); putchar(' '); xt_puthex(); }
+      else if(kind == 'F' && layer == 'B') { tickit_term_flush(tt); b_drain(); putchar(' '); xt_puthex(); }
+      else if(kind == 'b' && layer == 'B' && nf >= 2) {
+        tickit_term_set_output_buffer(tt, (size_t)atol(f[1])); b_drain(); putchar(' '); xt_puthex();
+      }
+      else if(kind == 'o' && layer == 'B') {
+        if(b_rfd != -1) tickit_term_set_output_fd(tt, fds[1]);
+        else            tickit_term_set_output_func(tt, xt_output, NULL);
+        if(!b_attached) {
+          /* the terminal answers the queries start() has just sent */
+          char buf[64];
+          xt_push(tt, "\e[?69;1$y"); xt_push(tt, "\e[?25;1$y");
+          if(vh_int(2)) { snprintf(buf, sizeof buf, "\e[?12;%d$y", (int)vh_int(2)); xt_push(tt, buf); }
+          if(vh_int(1) >= 0) { snprintf(buf, sizeof buf, "\eP1$r%d q\e\\", (int)vh_int(1)); xt_push(tt, buf); }
+          b_attached = true;
+        }
+        b_drain(); putchar(' '); xt_puthex();
+      }
+      else if(kind == 'D' && (layer == 'T' || layer == 'B' || t)) {
         if(t) { tickit_unref(t); t = NULL; } else tickit_term_unref(tt);
         destroyed = !(held_win || held_term);
+        b_drain();
         putchar(' '); xt_puthex();
       }
       else if(kind == 't' && layer == 'W' && t) {
@@ -157,11 +211,11 @@ int main(void)
     printf("\n");
     xt_reset();
     if(!destroyed) {
-      if(t) tickit_unref(t); else if(layer == 'T') tickit_term_unref(tt);
+      if(t) tickit_unref(t); else if(layer == 'T' || layer == 'B') tickit_term_unref(tt);
       while(held_winrefs) { tickit_window_unref(held_win); held_winrefs--; }
       while(held_term) { tickit_term_unref(tt); held_term--; }
     }
-    if(fds[0] != -1) { close(fds[0]); close(fds[1]); w_fd = -1; }
+    if(fds[0] != -1) { close(fds[0]); close(fds[1]); w_fd = -1; b_rfd = -1; }
   }
   return 0;
 }
